@@ -148,7 +148,7 @@ class OFolder(Folder):
     # ---- overridden value operations -------------------------------------------------------
     @staticmethod
     def _plain(v):
-        if isinstance(v, (Obj, BoundMethod, LocalFunc, ClassFunc)):
+        if isinstance(v, (Obj, BoundMethod, LocalFunc, ClassFunc, EnumMember)):
             return
         Folder._plain(v)
 
@@ -183,6 +183,12 @@ class OFolder(Folder):
     def v_attr(self, v, attr):
         if isinstance(v, Obj):
             return self.obj_attr(v, attr)
+        if isinstance(v, ClassRef) and any(isinstance(b, ast.Name) and b.id in ("Enum", "IntEnum", "Flag") for b in v.node.bases):
+            members = [t.id for st in v.node.body if isinstance(st, ast.Assign) for t in st.targets if isinstance(t, ast.Name)]
+            if attr in members:
+                cache = self.__dict__.setdefault("_enum_cache", {})
+                return cache.setdefault((v.name, attr), EnumMember(v.name, attr))
+            raise FoldedRaise("AttributeError", "%s.%s" % (v.name, attr))
         if isinstance(v, ClassRef):
             f = self.src.resolve_method(v.mod, v.name, attr)
             if f is not None:
@@ -427,20 +433,10 @@ class OFolder(Folder):
             return r
         try:
             return Folder.v_call(self, f, args, kw, node, env)
-        except TypeError as e:
-            raise FoldedRaise("TypeError", str(e))
-        except ValueError as e:
-            raise FoldedRaise("ValueError", str(e))
-        except KeyError as e:
-            raise FoldedRaise("KeyError", str(e))
-        except IndexError as e:
-            raise FoldedRaise("IndexError", str(e))
-        except AttributeError as e:
-            raise FoldedRaise("AttributeError", str(e))
-        except UnicodeDecodeError as e:
-            raise FoldedRaise("UnicodeDecodeError", str(e))
-        except UnicodeEncodeError as e:
-            raise FoldedRaise("UnicodeEncodeError", str(e))
+        except (Unknown, FoldedRaise, AnalysisError):
+            raise
+        except Exception as e:      # a pure builtin raised on folded values: that is the modelled code raising
+            raise FoldedRaise(type(e).__name__, str(e))
 
     def _isinstance(self, v, spec):
         specs = spec if isinstance(spec, tuple) else (spec,)
@@ -458,6 +454,14 @@ class OFolder(Folder):
             else:
                 raise Unknown("isinstance against %r" % (s,))
         return False
+
+
+class EnumMember:
+    def __init__(self, cls, name):
+        self.cls, self.name = cls, name
+
+    def __repr__(self):
+        return "%s.%s" % (self.cls, self.name)
 
 
 class _StrMethod:
